@@ -190,7 +190,7 @@ Lemma normal_logpdf_closed (mu sg x : R) : 0 < sg ->
 Proof.
   intro H. unfold normal_logpdf. cbn.
   replace (-2 * (- (1 / (sg * sg)) / 2)) with (/ (sg * sg)) by (field; lra).
-  rewrite ln_Rinv by (apply Rmult_lt_0_compat; assumption). rewrite ln_mult by assumption.
+  rewrite ln_Rinv by (apply Rmult_lt_0_compat; assumption). rewrite (ln_mult sg sg) by assumption.
   field. lra.
 Qed.
 
@@ -200,7 +200,7 @@ Lemma shift_factor_is_density (mu sg s c x : R) : 0 < sg -> 0 < c ->
   normal_logpdf mu sg ((x - s) / c) + - ln c = normal_logpdf (s + c * mu) (c * sg) x.
 Proof.
   intros Hs Hc. rewrite !normal_logpdf_closed by (try apply Rmult_lt_0_compat; assumption).
-  rewrite ln_mult by assumption. field. lra.
+  rewrite (ln_mult c sg) by assumption. field. lra.
 Qed.
 
 (* the stack of transforms: `_transform_det` accumulates the log-determinants *)
